@@ -122,6 +122,13 @@ func (e *Engine) collectHavoc(nodes []ast.Node, st *State) *havocSet {
 		case *ast.IndexExpr:
 			markLHS(lx.X)
 		case *ast.SelectorExpr:
+			if ix, ok := ast.Unparen(lx.X).(*ast.IndexExpr); ok {
+				// s[i].f = v: the slice (wherever it lives) changes
+				markLHS(ix.X)
+				if _, isSel := ast.Unparen(ix.X).(*ast.SelectorExpr); isSel {
+					return
+				}
+			}
 			tmp := st.clone()
 			nob := len(e.obls)
 			func() {
@@ -239,6 +246,29 @@ func (e *Engine) collectHavoc(nodes []ast.Node, st *State) *havocSet {
 								}
 							}
 						}
+					}
+				}
+			}
+			// &x passed to a call: the callee may fill x in
+			for _, a := range x.Args {
+				if u, ok := ast.Unparen(a).(*ast.UnaryExpr); ok && u.Op == token.AND {
+					markLHS(u.X)
+				}
+			}
+			// methods of standard-library readers / decoders: their ghost progress counters change
+			if se, ok := x.Fun.(*ast.SelectorExpr); ok {
+				if sel := e.info().Selections[se]; sel != nil && sel.Kind() == types.MethodVal {
+					if fn, ok := sel.Obj().(*types.Func); ok && fn.Pkg() != nil && (fn.Pkg().Path() == "encoding/json" || fn.Pkg().Path() == "encoding/csv") {
+						tmp := st.clone()
+						nob := len(e.obls)
+						func() {
+							defer func() { recover() }()
+							if b, ok := e.eval(se.X, tmp).(VTerm); ok {
+								h.mem["extrem:"+b.T.String()] = true
+								h.mem["csvfpr:"+b.T.String()] = true
+							}
+						}()
+						e.obls = e.obls[:nob]
 					}
 				}
 			}
@@ -714,7 +744,7 @@ func (e *Engine) execRangeSlice(x *ast.RangeStmt, st *State, u *types.Slice) []O
 		}
 		if x.Value != nil {
 			if id, ok := x.Value.(*ast.Ident); ok && id.Name != "_" {
-				v := e.wrap(mkSelect(sl.Arr, idx), sl.Elem)
+				v := e.sliceElem(sl, idx)
 				if x.Tok == token.DEFINE {
 					s.vars[e.info().Defs[id]] = v
 				} else {
